@@ -81,7 +81,7 @@ def gen_case(rng):
         hops.append({'url': gen_hop_url(rng), 'code': rng.choice(REDIRECT_CODES), 'set_cookie': rng.random() < 0.4,
                      'location_style': rng.choice(['absolute', 'absolute', 'relative-if-same-host'])})
     case = {'hops': hops, 'credentials': None, 'referer': rng.choice([None, 'http://a.test/from page', 'https://s.test/secret']),
-            'method': 'GET', 'challenge': False, 'preset_cookie': rng.random() < 0.5, 'proxy': rng.random() < 0.25}
+            'method': 'GET', 'challenge': False, 'preset_cookie': rng.random() < 0.5, 'proxy': rng.choice([False, False, False, False, False, True, True, 'tls'])}
     if rng.random() < 0.35:
         case['credentials'] = rng.choice([['user', 'pw'], ['us er', 'p:w'], ['ü', 'pä'], ['a\r\nX: 1', 'b']])
         # 'url': credentials inside the first URL (sent at once); 'login': configured user/password (as --http-user),
@@ -175,7 +175,10 @@ def run_case(case, part):
                     pass
             if case.get('proxy'):
                 from wpull.proxy.client import HTTPProxyConnectionPool
-                pool = HTTPProxyConnectionPool(('127.0.2.100', 3128), resolver=netsim.StaticResolver(table))
+                # 'tls': the hop to the proxy itself is encrypted (--https-proxy); the proxy still relays, so it needs the
+                # absolute URL exactly as a plain proxy does
+                pool = HTTPProxyConnectionPool(('127.0.2.100', 3128), resolver=netsim.StaticResolver(table),
+                                               proxy_ssl=case['proxy'] == 'tls')
             else:
                 pool = ConnectionPool(resolver=netsim.StaticResolver(table))
             jar = CookieJar()
@@ -227,7 +230,7 @@ def run_case(case, part):
     repeat_chain = any(c in (307, 308) for c in codes)
     cls = 'replay-redirect' if repeat_chain else ('redirect' if codes else 'direct')
     if case.get('proxy'):
-        cls = 'proxied-' + cls
+        cls = ('tls-proxied-' if case['proxy'] == 'tls' else 'proxied-') + cls
     part.nontrivial_case('{}/{}/{}/{}'.format(cls, len(hops), bool(case['credentials']), sorted(set(codes))))
     # which cookies / credentials each host may legitimately receive
     cookie_origin = {}
@@ -259,6 +262,8 @@ def run_case(case, part):
             # absolute-form: the hop's normalized URL
             want_target = info.url
             part.count('proxied_requests_captured')
+            if case['proxy'] == 'tls':
+                part.count('requests_relayed_by_tls_proxy_captured')
         if case.get('proxy'):
             # a relative Location keeps the authority of its base, including user info (RFC 3986 5.2): compare the
             # absolute form without user info
@@ -334,7 +339,7 @@ def main():
                   'query material (encoded CR LF, spaces, NUL, "HTTP/1.1", quotes, non-ASCII), Set-Cookie on some hops, credentials '
                   'in the first URL with and without a 401 challenge, referrers; every captured request parsed strictly. '
                   'distinct_nontrivial = distinct (chain class, hops, credentials, redirect codes)')
-    check.assumptions = ['tunnelled (CONNECT) connections are not exercised; plain proxied requests are']
+    check.assumptions = ['tunnelled (CONNECT) connections are not exercised; requests relayed by a plain or a TLS proxy are']
     target = 'checks.c16_requests:worker'
     if check.args.replay:
         with open(check.args.replay) as f:
